@@ -10,6 +10,7 @@
 #include "mmd.h"
 #include "d_string.h"
 #include "token.h"
+#include "stack.h"
 #include "parser.h"
 #include "terminals.h"
 #ifndef N
